@@ -9,7 +9,7 @@ SCHEMES = {'ksi': ('http', 'http'), 'ksi+http': ('http', 'http'), 'ksi+https': (
            'k': ('http', None), 'ks': ('http', None), 'ksi+': ('http', None), 'ksi+h': ('http', None), 'ksi+htt': ('http', None), 'ksi+t': ('http', None),
            'ksi+tc': ('http', None), 'f': ('http', None), 'fil': ('http', None), 'ksix': ('http', None), 'ksi+tcpx': ('http', None), 'files': ('http', None),
            'ksi+httpss': ('http', None)}
-HOSTS = ['agg.example', 'a', 'x-1.sub.example.org', '10.1.2.3', '127.0.0.1', '[::1]', '[2001:db8::1:2]']
+HOSTS = ['agg.example', 'a', 'x-1.sub.example.org', '10.1.2.3', '127.0.0.1', '[::1]', '[2001:db8::1:2]', '[::ffff:192.0.2.7]', '[64:ff9b::10.1.2.3]']      # (the last two: IPv6 literals with a dotted IPv4 tail)
 PORTS = [None, 1, 80, 8080, 65535]
 PATHS = [None, '/', '/gt-signingservice', '/a/b.c/d-e_f']
 QUERIES = [None, 'x=1', 'a=b&c=d']
